@@ -51,6 +51,7 @@
 #include <fcppt/parse/named.hpp>
 #include <fcppt/parse/parse_string.hpp>
 #include <fcppt/parse/phrase_parse_string.hpp>
+#include <fcppt/parse/phrase_parse_stream.hpp>
 #include <fcppt/parse/result.hpp>
 #include <fcppt/parse/separator.hpp>
 #include <fcppt/parse/string.hpp>
